@@ -20,6 +20,14 @@ mod boundary;
 
 use std::process::exit;
 
+/// Fine-grained E3 (see harness/Cargo.fine.toml.in): every function entry of the instrumented
+/// tree under test lands here.
+#[cfg(feature = "fine")]
+#[no_mangle]
+pub extern "C" fn mcount() {
+    sched::fine_point();
+}
+
 fn main() {
     let args: Vec<String> = std::env::args().collect();
     let cmd = args.get(1).map(|s| s.as_str()).unwrap_or("");
@@ -42,6 +50,7 @@ fn main() {
             0
         }
         "sched-free" => sched::free_run(),
+        "fine-run" => sched::fine_run(&args[2..]),
         _ => {
             eprintln!("usage: jlmc check|worker|replay|oracle|corpus|selftest ...");
             2
